@@ -179,7 +179,7 @@ fn rand_payload(rng: &mut StdRng) -> Vec<Digest> {
 
 // kind A: a block tree (main chain with TC-justified gaps, occasional forks), delivered in a locally shuffled order
 // with timers, votes, timeouts, TCs and batch arrivals interleaved
-fn gen_chain(rng: &mut StdRng, abs: &mut Abs, cfg: &Cfg, e: &mut Emit) -> Vec<Ev> {
+fn gen_chain(rng: &mut StdRng, abs: &mut Abs, cfg: &Cfg, e: &mut Emit, boost: u64) -> Vec<Ev> {
     let mut blocks: Vec<Block> = vec![];
     let mut tip: Option<Block> = None;
     let mut round = 0u64;
@@ -191,11 +191,16 @@ fn gen_chain(rng: &mut StdRng, abs: &mut Abs, cfg: &Cfg, e: &mut Emit) -> Vec<Ev
         while cfg.stakes[cfg.leader(round)] == 0 { round += 1; }
         let gap = round - tip.as_ref().map(|t| t.round).unwrap_or(0) - 1;
         let signers = cfg.quorum_set(rng, true);
-        let (qc, qr) = match &tip { Some(t) => (abs.mk_qc(t, &signers), t.round), None => (QC::genesis(), 0) };
+        // mostly extend the tip; sometimes (after a gap) extend an OLDER certified block than the one the node already holds a
+        // QC for, justified by a TC whose reported rounds lie between the two (the shape a Byzantine leader would try)
+        let tip_round = tip.as_ref().map(|t| t.round).unwrap_or(0);
+        let older: Option<Block> = if gap > 0 && blocks.len() >= 2 && rng.gen_bool(if boost > 1 { 0.5 } else { 0.25 }) { e.stat("extends_older_block", 1); Some(blocks[rng.gen_range(0, blocks.len() - 1)].clone()) } else { None };
+        let base = older.clone().or(tip.clone());
+        let (qc, qr) = match &base { Some(t) => (abs.mk_qc(t, &signers), t.round), None => (QC::genesis(), 0) };
         let tc = if gap > 0 {
             let s2 = cfg.quorum_set(rng, false);
             // reported high-QC rounds: mostly <= the block's QC round, sometimes above it (then the block is not votable)
-            let hqs: Vec<(usize, u64)> = s2.iter().map(|&a| (a, if rng.gen_bool(0.12) { e.stat("tc_hq_above_qc", 1); qr + rng.gen_range(1, 3) } else if qr > 0 && rng.gen_bool(0.4) { rng.gen_range(0, qr + 1) } else { qr })).collect();
+            let hqs: Vec<(usize, u64)> = s2.iter().map(|&a| (a, if older.is_some() && tip_round > qr && rng.gen_bool(0.7) { rng.gen_range(qr, tip_round + 1) } else if rng.gen_bool(0.12) { e.stat("tc_hq_above_qc", 1); qr + rng.gen_range(1, 3) } else if qr > 0 && rng.gen_bool(0.4) { rng.gen_range(0, qr + 1) } else { qr })).collect();
             let tcr = if rng.gen_bool(0.1) { e.stat("tc_wrong_round", 1); round.saturating_sub(2) } else { round - 1 };
             Some(abs.mk_tc(tcr, &hqs))
         } else { None };
@@ -238,6 +243,58 @@ fn gen_chain(rng: &mut StdRng, abs: &mut Abs, cfg: &Cfg, e: &mut Emit) -> Vec<Ev
     for _ in 0..4 { evs.push(Ev::Loop); }
     evs
 }
+
+
+// kind B: the node under test leads round R+1. A consecutive chain up to R-1 is delivered, then -- in a random order --
+// the round-R proposal, the other members' votes for it, a TC for round R, individual timeouts for round R, timer
+// expiries and duplicates: the QC path, the TC path, and every race between them (late votes after a TC, a late TC
+// after the QC, ...), followed by the loop-backs of the node's own proposals.
+fn gen_leader(rng: &mut StdRng, abs: &mut Abs, cfg: &Cfg, e: &mut Emit) -> Vec<Ev> {
+    let n = cfg.n as u64;
+    let mut r_plus = cfg.me as u64; while r_plus < 3 { r_plus += n; }
+    if rng.gen_bool(0.3) { r_plus += n; }
+    let big_r = r_plus - 1;
+    let all: Vec<usize> = (0..cfg.n).collect();
+    let mut evs = vec![];
+    let mut tip: Option<Block> = None;
+    for r in 1..big_r {
+        let qc = match &tip { Some(t) => abs.mk_qc(t, &all), None => QC::genesis() };
+        let b = abs.mk_block(qc, None, r, vec![]);
+        evs.push(Ev::Propose(b.clone())); evs.push(Ev::LoopAll);
+        tip = Some(b);
+    }
+    let qc_prev = match &tip { Some(t) => abs.mk_qc(t, &all), None => QC::genesis() };
+    let b_r = abs.mk_block(qc_prev.clone(), None, big_r, rand_payload_none());
+    let mut pool: Vec<Ev> = vec![Ev::Propose(b_r.clone())];
+    for a in 0..cfg.n { if a != cfg.me || rng.gen_bool(0.1) { pool.push(Ev::Vote(abs.mk_vote(a, &b_r))); } }
+    if rng.gen_bool(0.7) { e.stat("leader:tc", 1); let s2 = cfg.quorum_set(rng, false); let hq = qc_prev.round; pool.push(Ev::TC(abs.mk_tc(big_r, &s2.iter().map(|&a| (a, hq)).collect::<Vec<_>>()))); }
+    if rng.gen_bool(0.6) { e.stat("leader:timeouts", 1); for a in 0..cfg.n { if a != cfg.me && rng.gen_bool(0.8) { pool.push(Ev::Timeout(abs.mk_timeout(a, big_r, qc_prev.clone()))); } } }
+    if rng.gen_bool(0.4) { pool.push(Ev::Timer); }
+    if rng.gen_bool(0.3) { let a = rng.gen_range(0, cfg.n); pool.push(Ev::Vote(abs.mk_vote(a, &b_r))); } // duplicate vote
+    if rng.gen_bool(0.35) { // forged votes for the round-R block: claimed author (possibly the node itself), signature by somebody else
+        e.stat("leader:forged_vote", 1);
+        for _ in 0..rng.gen_range(1, 3) {
+            let claimed = if rng.gen_bool(0.5) { cfg.me } else { rng.gen_range(0, cfg.n) };
+            let signer = (claimed + 1 + rng.gen_range(0, cfg.n.max(2) - 1)) % cfg.n;
+            let mut v = abs.mk_vote(signer, &b_r); v.author = abs.key(claimed).0;
+            pool.push(Ev::Vote(v));
+        }
+    }
+    if rng.gen_bool(0.2) { // a conflicting block of the same round with votes for it
+        let f = abs.mk_block(qc_prev.clone(), None, big_r, vec![batch_digest(13)]);
+        for a in 0..cfg.n { if a != cfg.me && rng.gen_bool(0.5) { pool.push(Ev::Vote(abs.mk_vote(a, &f))); } }
+        e.stat("leader:conflicting_votes", 1);
+    }
+    pool.shuffle(rng);
+    for ev in pool { evs.push(ev); if rng.gen_bool(0.3) { evs.push(Ev::Loop); } }
+    evs.push(Ev::LoopAll); evs.push(Ev::LoopAll);
+    // one more round on top of whatever the node proposed is left to the loop-backs; add stale leftovers
+    if rng.gen_bool(0.5) { let a = rng.gen_range(0, cfg.n); evs.push(Ev::Vote(abs.mk_vote(a, &b_r))); }
+    if rng.gen_bool(0.5) { let s2 = cfg.quorum_set(rng, false); evs.push(Ev::TC(abs.mk_tc(big_r, &s2.iter().map(|&a| (a, 0)).collect::<Vec<_>>()))); }
+    evs.push(Ev::LoopAll);
+    evs
+}
+fn rand_payload_none() -> Vec<Digest> { vec![] }
 
 // kind C: valid messages mutated field by field (the malformed stream), each followed by the valid original
 fn gen_malformed(rng: &mut StdRng, abs: &mut Abs, cfg: &Cfg, e: &mut Emit) -> Vec<Ev> {
@@ -312,11 +369,12 @@ fn drain<T>(rx: &mut Receiver<T>) -> Vec<T> { let mut v = vec![]; while let Ok(x
 struct CaseOut { defs: String, evs: Vec<String>, obs: Vec<String>, human: Vec<String>, nontrivial: bool, hexmsgs: Vec<String> }
 
 #[allow(clippy::too_many_arguments)]
-async fn run_case(seed: u64, case: usize, script: Option<&str>, dbroot: &str, e: &mut Emit) -> (Cfg, CaseOut) {
+async fn run_case(seed: u64, case: usize, script: Option<&str>, dbroot: &str, e: &mut Emit, boost: u64) -> (Cfg, CaseOut) {
     let mut rng = case_rng(seed, 1, case as u64);
     let kind = if script.is_some() { 9 } else { case % 8 };
     let n = if script.is_some() { 4 } else { match case % 11 { 0 => rng.gen_range(2, 4), 1 => rng.gen_range(8, 11), _ => rng.gen_range(4, 8) } };
-    let mut stakes: Vec<u32> = if script.is_none() && case % 3 == 2 { (0..n).map(|_| rng.gen_range(0, 5)).collect() } else { vec![1; n] };
+    let leader_kind = script.is_none() && (kind == 2 || kind == 5 || (boost > 1 && kind == 7));
+    let mut stakes: Vec<u32> = if script.is_none() && case % 3 == 2 && !leader_kind { (0..n).map(|_| rng.gen_range(0, 5)).collect() } else { vec![1; n] };
     if stakes.iter().all(|&x| x == 0) { stakes[0] = 1; }
     let mut keys = sorted_keys(&mut rng, n + 1);
     let outsider = keys.remove(rng.gen_range(0, n + 1));
@@ -324,14 +382,15 @@ async fn run_case(seed: u64, case: usize, script: Option<&str>, dbroot: &str, e:
     let com = Committee::new(keys.iter().enumerate().map(|(i, (pk, _))| (*pk, stakes[i], format!("127.0.0.1:{}", 9000 + i).parse().unwrap())).collect(), 1);
     let cfg = Cfg { n, me, stakes: stakes.clone(), quorum: com.quorum_threshold() };
     let mut abs = Abs { keys, outsider, digests: HashMap::new(), sigs: HashMap::new(), junk: 0, defs: String::new(), nblk: 0, bnames: HashMap::new() };
-    e.stat(&format!("kind={}", ["chain", "chain", "chain", "malformed", "chain", "chain", "malformed", "chain", "", "script"][kind]), 1);
+    e.stat(&format!("kind={}", if leader_kind { "leader" } else { ["chain", "chain", "chain", "malformed", "chain", "chain", "malformed", "chain", "", "script"][kind] }), 1);
     e.stat(&format!("n={}", n), 1);
     if stakes.iter().any(|&x| x != 1) { e.stat("weighted", 1); }
 
     let evs: Vec<Ev> = match (script, kind) {
         (Some(s), _) => gen_script(s, &mut abs, &cfg),
         (None, 3) | (None, 6) => gen_malformed(&mut rng, &mut abs, &cfg, e),
-        _ => gen_chain(&mut rng, &mut abs, &cfg, e),
+        (None, _) if leader_kind => gen_leader(&mut rng, &mut abs, &cfg, e),
+        _ => gen_chain(&mut rng, &mut abs, &cfg, e, boost),
     };
 
     network::verif::tap_start();
@@ -452,7 +511,7 @@ fn main() {
         for (k, script) in list {
             if let Some(only) = o.only { if only != k { continue; } }
             let e = &mut emits[k % shards];
-            let (cfg, out) = run_case(o.seed, k, script, &dbroot, e).await;
+            let (cfg, out) = run_case(o.seed, k, script, &dbroot, e, o.boost).await;
             let stakes: Vec<String> = (0..cfg.n).map(|i| format!("({},{})", i, cfg.stakes[i])).collect();
             let defs = format!("{}Definition cmt := mkCommittee {}.\nDefinition evs : list (list N * Event) := {}.\nDefinition obs : list Obs := {}.\n",
                 out.defs, coq_list(&stakes), coq_list(&out.evs), coq_list(&out.obs));
